@@ -148,6 +148,39 @@ impl<'a> Runner<'a> {
         for a in ["sI", "sR", "sX", "sY", "eI", "eR", "psk0", "psk1", "psk2", "psk3", "psk4", "pskX", "mk1", "mk2"] {
             bind.atoms.insert(a.to_string(), crate::eval::junk_bytes(inst.seed, &format!("atom:{a}"), 32));
         }
+        // special VALUES (the model's atoms are opaque; which bytes stand for them is the harness's choice): in some
+        // instances ONE secret is all zeros or all ones, or a static key pair is searched whose public key ends in 0x00 /
+        // starts with 0x00 after the format byte - values a length or equality shortcut in the code could trip over.
+        // At most one atom per instance is special, so distinct atoms keep distinct values.
+        let sel = crate::eval::junk_bytes(inst.seed, "special", 2);
+        match sel[0] % 12 {
+            0 => {
+                bind.atoms.insert(format!("psk{}", sel[1] % 5), vec![0u8; 32]);
+            },
+            1 => {
+                bind.atoms.insert("mk1".into(), vec![0u8; 32]);
+            },
+            2 => {
+                bind.atoms.insert("mk2".into(), vec![0u8; 32]);
+            },
+            3 => {
+                bind.atoms.insert(format!("psk{}", sel[1] % 5), vec![0xffu8; 32]);
+            },
+            4 | 5 => {
+                let who = if sel[1] & 1 == 0 { "sR" } else { "sI" };
+                for i in 0..4096u32 {
+                    let sk = crate::eval::junk_bytes(inst.seed, &format!("atom:{who}#{i}"), 32);
+                    if let Some(pk) = crate::prims::dh_pub(inst.ps.dh, &sk) {
+                        let hit = if sel[0] % 12 == 4 { pk.last() == Some(&0) } else { pk.get(pk.len() - 32) == Some(&0) };
+                        if hit {
+                            bind.atoms.insert(who.into(), sk);
+                            break;
+                        }
+                    }
+                }
+            },
+            _ => {},
+        }
         bind.atoms.insert(
             "prologue".into(),
             crate::eval::junk_bytes(inst.seed, "atom:prologue", inst.prologue_len),
